@@ -241,6 +241,51 @@ def tab14(units, R):
         ok = guarded_by(cfg, node.id, lambda nn, l: nn.kind == 'branch' and l is not None and is_ref(nn.expr) and
                         strip_casts(nn.expr)['d'] == recp['d'] and l[0] == 'T')
         R.ob('TAB14', fn, x, 'children are visited only when recurse is set', ok, '', key='recurse-guard')
+    # the copy may hold a borrowed (constant) key only while its type already says so: whoever releases the half-built copy
+    # on a failure path looks at copy->type to decide whether the key is its to free
+    key_stores = []
+    for a in stores.get('string', []):
+        r = strip_casts(a['r'])
+        definitely_fresh = (r.get('k') == 'call' and callee_name(r) in fresh) or is_null_const(a['r']) or \
+            (r.get('k') == 'ref' and locals_fresh.get(r['d']))
+        if not definitely_fresh:
+            key_stores.append(a)
+    def keeps_const_bit(r):
+        r = strip_casts(r)
+        if r.get('k') == 'mem' and r['f'] == 'type' and derives_from_source(r):
+            return True
+        if r.get('k') == 'bin' and r['op'] == '&':
+            for (x, y) in ((r['l'], r['r']), (r['r'], r['l'])):
+                m = const_val(y)
+                if m is not None and (m & 512) and keeps_const_bit(x):
+                    return True
+        if r.get('k') == 'bin' and r['op'] == '|':
+            return keeps_const_bit(r['l']) or keeps_const_bit(r['r'])
+        return False
+    type_stores = [a for a in stores.get('type', []) if a['op'] == '=' and keeps_const_bit(a['r'])]
+    releases = []
+    for c in fn.calls():
+        if callee_name(c) == 'cJSON_Delete' and c['args'] and is_ref(c['args'][0]) and strip_casts(c['args'][0])['d'] == copy:
+            releases.append(c)
+    if key_stores and releases:
+        T = {node_containing(cfg, a).id for a in type_stores}
+        before = cfg.reachable(cfg.entry.id, stop=T) | {cfg.entry.id}
+        for a in key_stores:
+            S = node_containing(cfg, a).id
+            ok = True
+            why = 'the type (with its constant-key bit) is stored on every path before the copy can be released'
+            if S in before and S not in T:
+                after = cfg.reachable(S, stop=T)
+                for c in releases:
+                    D = node_containing(cfg, c).id
+                    if D in after:
+                        ok = False
+                        why = 'a failure path releases the copy at line %d after it received a possibly constant key at line %d but ' \
+                              'before its type was stored: cJSON_Delete would free the key it shares with the source' % (
+                                  cfg.nodes[D].line, cfg.nodes[S].line)
+                        break
+            R.ob('TAB14', fn, a, 'a shared constant key is never on the copy without its cJSON_StringIsConst bit', ok, why,
+                 key='key-before-type')
     R.floor('TAB14', 'fields of struct cJSON', len(fields), 8)
 
 
